@@ -314,6 +314,13 @@ func runImpl(k *hcase, in string) (res result) {
 			}
 		}
 	}()
+	defer func() {
+		if r := recover(); r != nil {
+			res.panicked = true
+			res.goFinds = append(res.goFinds, Finding{Kind: "oracle", Class: "panic-outside-frame-path", Case: in,
+				Impl: fmt.Sprintf("panic in a client call or in Close: %v", r), Spec: "no panic"})
+		}
+	}()
 	if !res.panicked {
 		query()
 		readHeld()
